@@ -21,7 +21,7 @@ import sys
 import threading
 import time
 
-CLOSE_TIMEOUT = 15.0        # generous: a close() that takes longer is reported as "did not complete"
+CLOSE_TIMEOUT = 10.0        # generous: a close() that takes longer is reported as "did not complete"
 RUN_TIMEOUT = 50.0
 
 # coroutine qualified names of the tasks the connection and the objects it owns create
@@ -65,6 +65,17 @@ class CountingLoop(asyncio.SelectorEventLoop):
                 fn()
 
 
+def in_close():
+    """is the current call chain inside RTCPeerConnection.close()?  (receiver / sender stop() may also be called by the
+    application through RTCRtpTransceiver.stop())"""
+    f = sys._getframe(1)
+    while f is not None:
+        if f.f_code.co_name == "close" and f.f_code.co_filename.endswith("rtcpeerconnection.py"):
+            return True
+        f = f.f_back
+    return False
+
+
 class RecTask(asyncio.Task):
     """a Task that reports cancel() calls"""
     c19 = None
@@ -97,6 +108,7 @@ class Peer:
         self.primary_ret = False
         self.lis_at_return = None
         self.ice_in_close = set()
+        self.ice_in_nstop = set()
         self.events_after_close = []
 
 
@@ -114,6 +126,8 @@ class World:
         self.iter_total = 0
         self.notes = []
         self.recording = True
+        self.close_timeout = CLOSE_TIMEOUT
+        self.broken = None          # an internal the instrumentation relies on is missing: broken correspondence, no verdict
 
     # ---- object graph -> model configuration -------------------------------------------------------
     def own(self, obj, peer, role, idx=None):
@@ -124,8 +138,16 @@ class World:
     def sync(self, p):
         """emit the configuration changes of connection p since the last event (new transports / transceivers / SCTP
         transport, BUNDLE re-assignments and discards, remote tracks, decoder threads that ended on their own)"""
-        if p >= len(self.pcs):
+        if p >= len(self.pcs) or self.broken:
             return
+        try:
+            self._sync(p)
+        except AttributeError as exc:
+            # the object graph is read through a few internals (`__dtlsTransports`, `_connection`): without them there is no
+            # trace to compare - a broken correspondence, never a verdict about the connection
+            self.broken = "instrumentation: " + str(exc)[:120]
+
+    def _sync(self, p):
         pc = self.pcs[p]
         P = self.peers[p]
         out = P.trace.append
@@ -169,7 +191,7 @@ class World:
         for k, d in enumerate(P.tpts):
             if k not in P.discarded and d not in dset:
                 P.discarded.add(k)
-                out(f"t:{k}:dc")
+                out(f"t:{k}:ns")
         for i, th in P.dec_threads.items():
             if i not in P.dec_reported and not th.is_alive():
                 P.dec_reported.add(i)
@@ -282,7 +304,10 @@ class World:
 
     def on_cancel(self, info):
         p, kind, i = info["peer"], info["kind"], info["idx"]
-        if kind == "connect":
+        if kind in WHICH and not in_close():
+            # cancelled by a stop() the application called (RTCRtpTransceiver.stop()): an input of the model
+            self.tok(p, f"x:{i}:c:{WHICH[kind]}")
+        elif kind == "connect":
             self.tok(p, f"oc:{i}")
         elif kind == "rtp":
             self.tok(p, f"c:cp:{i}")
@@ -379,16 +404,28 @@ class World:
         # stop() of the owned objects
         def stopper(enter_tok, leave_tok, only_from_close):
             def on_enter(p, i, obj, caller):
+                P = world.peers[p]
                 if only_from_close and caller != "close":
+                    if caller == "setRemoteDescription":
+                        # BUNDLE clean-up of setRemoteDescription: it stops the transport it is about to discard
+                        if enter_tok == "c:ei":
+                            if obj.state == "closed":
+                                return False
+                            P.ice_in_nstop.add(i)
+                        world.tok(p, f"t:{i}:ns")
                     return False
+                if not only_from_close and not in_close():
+                    return False        # RTCRtpTransceiver.stop() called by the application: see on_cancel
                 if enter_tok == "c:ei":
-                    world.peers[p].ice_in_close.add(i)
+                    P.ice_in_close.add(i)
                 world.tok(p, f"{enter_tok}:{i}" if i is not None else enter_tok)
                 if enter_tok == "c:er":
-                    world.peers[p].dec_reported.add(i)      # receiver.stop() joins the decoder thread itself
+                    P.dec_reported.add(i)      # receiver.stop() joins the decoder thread itself
                 return True
 
             def on_leave(p, i, obj, ctx, exc):
+                if enter_tok == "c:ei":
+                    world.peers[p].ice_in_nstop.discard(i)
                 if not ctx:
                     return
                 if enter_tok == "c:ei":
@@ -406,10 +443,15 @@ class World:
 
         # aioice connection closed by RTCIceTransport.stop() (inside close())
         def cc_enter(p, k, conn, caller):
+            if caller == "stop" and k in world.peers[p].ice_in_nstop:
+                return "n"
             return caller == "stop" and k in world.peers[p].ice_in_close
 
         def cc_leave(p, k, conn, ctx, exc):
-            if ctx and exc is None:
+            if ctx == "n":
+                if exc is None:
+                    world.tok(p, f"t:{k}:ns")
+            elif ctx and exc is None:
                 world.tok(p, f"c:ck:{k}")
         wrap(aioice.ice.Connection, "close", cc_enter, cc_leave)
 
@@ -611,8 +653,15 @@ async def _do_close(world, p, label):
     P = world.peers[p]
     t0 = time.monotonic()
     try:
-        await asyncio.wait_for(pc.close(), CLOSE_TIMEOUT)
+        await asyncio.wait_for(pc.close(), world.close_timeout)
     except asyncio.TimeoutError:
+        world.close_results.append({"peer": p, "label": label, "secs": None, "exc": "timeout"})
+        return
+    except asyncio.CancelledError:
+        # not this task being cancelled: the close future itself is in the cancelled state (an earlier close() that had to be
+        # abandoned took it along) - this close() can never return normally
+        if asyncio.current_task().cancelling():
+            raise
         world.close_results.append({"peer": p, "label": label, "secs": None, "exc": "timeout"})
         return
     except Exception as exc:  # noqa: BLE001
@@ -826,9 +875,13 @@ async def _main(world, case):
         it0 = loop.iteration
         loop.counting = True
         try:
-            await asyncio.wait_for(world.pcs[p].close(), CLOSE_TIMEOUT)
+            await asyncio.wait_for(world.pcs[p].close(), 3.0)      # (it has to return at once)
             final[p]["reclose"] = "ok"
         except asyncio.TimeoutError:
+            final[p]["reclose"] = "timeout"
+        except asyncio.CancelledError:
+            if asyncio.current_task().cancelling():
+                raise
             final[p]["reclose"] = "timeout"
         except Exception as exc:  # noqa: BLE001
             final[p]["reclose"] = type(exc).__name__
